@@ -103,7 +103,7 @@ def main():
             shutil.rmtree(tree, ignore_errors=True)
     print(json.dumps(res, indent=1))
     if a.keep:
-        dst = os.path.join(VERIF, 'seeded', name)
+        dst = os.path.join(os.environ.get('VERIF_SEEDED_OUT') or os.path.join(VERIF, 'seeded'), name)
         os.makedirs(dst, exist_ok=True)
         for f in ('patch.diff', 'demo.py'):
             shutil.copy(os.path.join(d, f), os.path.join(dst, f))
